@@ -149,7 +149,9 @@ CHECKS["C06"] = {
     "jobs": lambda tier: [J("cutmc", "plain", ["--mode", "body"]),
                           J("cutmc", "asan", ["--mode", "body", "--maxlen", "2" if tier == "quick" else "3"]),
                           J("statemc", "plain", ["--alphabet", "micro", "--depth", "4" if tier == "quick" else "5", "--cfg", "0"]),
-                          J("statemc", "plain", ["--alphabet", "macro", "--depth", "5" if tier == "quick" else "6", "--cfg", "0"])] + _edits(tier, cfgs=(0, 3)),
+                          J("statemc", "plain", ["--alphabet", "macro", "--depth", "5" if tier == "quick" else "6", "--cfg", "0"]),
+                          # two exchanges that are fine alone must be fine one after the other on a connection: every ordered pair of the repeatable base exchanges, with all monitors
+                          J("cutmc", "plain", ["--mode", "steady", "--steady-n", "8"])] + _edits(tier, cfgs=(0, 3)),
 }
 
 
